@@ -95,8 +95,12 @@ int libxmp_realloc_samples(struct module_data *m, int new_size)
 	mod->xxs = xxs;
 
 	xtra = (struct extra_sample_data *) realloc(m->xtra, sizeof(struct extra_sample_data) * new_size);
-	if (xtra == NULL)
+	if (xtra == NULL) {
+		/* xxs may have been shrunk already. */
+		if (new_size < mod->smp)
+			mod->smp = new_size;
 		return -1;
+	}
 	m->xtra = xtra;
 
 	if (new_size > mod->smp) {
